@@ -173,6 +173,7 @@ class Ctx:
         self.ghost = {}              # ghost values exposed to the contract (e.g. selected rows of a mask filter)
         self.fn_stack = []
         self.modular_site = None     # set while a callee's postcondition is evaluated for a call site
+        self.used_model_ops = set()  # library methods answered by a dialect model on this path (evidence: trusted base)
         self.key_schemas = []        # smt.ForallKey assumptions (universals over dictionary keys)
         self.key_terms = []          # string terms at which they are instantiated
 
